@@ -32,7 +32,7 @@ FLAVOURS = {
     # data-race detector on the unhooked code, no OpenMP (construction is sequential, readers are std::thread)
     "tsan": dict(cxx="g++", flags=COMMON + ["-O1", "-g1", "-fsanitize=thread", "-march=native", "-pthread",
                                             "-Wno-unknown-pragmas"],
-                 env={"TSAN_OPTIONS": "halt_on_error=0:report_signal_unsafe=0:history_size=4:second_deadlock_stack=1"}),
+                 env={"TSAN_OPTIONS": "halt_on_error=0:exitcode=0:report_signal_unsafe=0:history_size=4:second_deadlock_stack=1"}),
     # advisory: undefined-behaviour reports are listed in the evidence, never a verdict
     "ubsan": dict(cxx="g++", flags=COMMON + HOOKS + ["-fopenmp", "-O1", "-g1", "-fsanitize=undefined,float-cast-overflow",
                                                      "-fsanitize-recover=all", "-march=native"],
